@@ -55,13 +55,31 @@ let dump_chain c =
   List.iteri (fun i t -> if i > 0 then Buffer.add_char b ' '; dump_table b t) (chain c);
   Buffer.add_char b '}'; Buffer.contents b
 
+let cov_on = (try Sys.getenv "HASHT_COV" <> "" with Not_found -> false)
+let cov : (string, int) Hashtbl.t = Hashtbl.create 32
+let () = at_exit (fun () -> if cov_on then Hashtbl.iter (fun k v -> Printf.eprintf "cov %s %d\n" k v) cov)
+
 (* same loop as cos_run: the schedule, then round-robin until every thread has finished *)
 let run_sched c0 nt sched maxrounds =
   let c = ref c0 in
   let steps = Array.make nt 0 in
   let fin t = match List.nth_opt !c.g_thr t with Some th -> th_finished th | None -> true in
   let st t = if t >= 0 && t < nt && not (fin t) then begin
-      steps.(t) <- steps.(t) + 1; c := cstep !c (nat_of_int t) end in
+      steps.(t) <- steps.(t) + 1;
+      if cov_on then begin
+        let th = List.nth !c.g_thr t in
+        let c' = cstep !c (nat_of_int t) in
+        let stutter = (c'.g_thr = !c.g_thr) in
+        let name = match th.th_pc with
+          | PIdle -> "idle" | PRdLock -> "rdlock" | PRdWait _ -> "rdwait" | PLockTop -> "locktop"
+          | PLockOld _ -> "lockold" | PDecUsed _ -> "decused" | PCas _ -> "cas" | PUnlockOldF _ -> "unlockoldF"
+          | PUnlockOldN _ -> "unlockoldN" | PUnlockTop _ -> "unlocktop" | PRdUnlock _ -> "rdunlock"
+          | PWrTicket -> "wrticket" | PWrWait1 _ -> "wrwait1" | PWrRin _ -> "wrrin" | PWrWait2 _ -> "wrwait2"
+          | PWrUnlock -> "wrunlock" in
+        let key = name ^ (if stutter then "-blocked" else "") in
+        Hashtbl.replace cov key (1 + (try Hashtbl.find cov key with Not_found -> 0))
+      end;
+      c := cstep !c (nat_of_int t) end in
   List.iter st sched;
   let k = ref 0 and dl = ref false in
   while not (all_done !c) && not !dl do
